@@ -6,9 +6,11 @@
 package main
 
 import (
+	"bytes"
 	"errors"
 	"flag"
 	"fmt"
+	"io"
 	"math/rand"
 	"runtime"
 	"strings"
@@ -39,7 +41,7 @@ type under struct {
 	b      *evlog.Buf
 	script []step
 	i      int
-	unit   int // byte counts are recorded in this unit (1, or 1 MiB in the multi-gigabyte run)
+	unit   int  // byte counts are recorded in this unit (1, or 1 MiB in the multi-gigabyte run)
 	quiet  bool // tight run: no event per write, only the running total (recorded once at the end)
 	total  int
 }
@@ -83,6 +85,55 @@ type stringWriter struct{ u *under }
 
 func (p stringWriter) Write(b []byte) (int, error)       { return p.u.next(len(b)) }
 func (p stringWriter) WriteString(s string) (int, error) { return p.u.next(len(s)) }
+
+// rfWriter: a wrapped writer with a ReadFrom of its own (as *os.File, *bufio.Writer, net.TCPConn have): it pulls the source
+// in chunks and accepts of each chunk what the script says
+type rfWriter struct{ u *under }
+
+func (p rfWriter) Write(b []byte) (int, error) { return p.u.next(len(b)) }
+func (p rfWriter) ReadFrom(r io.Reader) (int64, error) {
+	buf := make([]byte, 8<<10)
+	var total int64
+	for {
+		n, rerr := r.Read(buf)
+		if n > 0 {
+			a, werr := p.u.next(n)
+			total += int64(a)
+			if werr != nil {
+				return total, werr
+			}
+			if a < n {
+				return total, io.ErrShortWrite
+			}
+		}
+		if rerr == io.EOF {
+			return total, nil
+		}
+		if rerr != nil {
+			return total, rerr
+		}
+	}
+}
+
+// seekWriter: a wrapped writer that knows its position (a file opened for appending / a resumed transfer): not at 0
+type seekWriter struct {
+	u   *under
+	pos int64
+}
+
+func (p *seekWriter) Write(b []byte) (int, error) {
+	n, err := p.u.next(len(b))
+	p.pos += int64(n)
+	return n, err
+}
+func (p *seekWriter) Seek(off int64, whence int) (int64, error) {
+	if whence == io.SeekStart {
+		p.pos = off
+	} else if whence == io.SeekCurrent {
+		p.pos += off
+	}
+	return p.pos, nil
+}
 
 func parkedInWrite() bool {
 	buf := make([]byte, 1<<18)
@@ -149,11 +200,18 @@ func main() {
 		}
 		var pw *ioutil.ProgressWriter
 		isSW := rng.Intn(2) == 0
-		if isSW {
+		viaCopy := !tight && !huge && run%7 == 3 // the writes arrive through io.Copy(pw, source), the wrapped writer has a ReadFrom of its own
+		switch {
+		case viaCopy:
+			pw = ioutil.NewProgressWriter(rfWriter{u})
+		case !tight && !huge && run%7 == 5:
+			pw = ioutil.NewProgressWriter(&seekWriter{u: u, pos: int64(4096 + rng.Intn(100000))})
+		case isSW:
 			pw = ioutil.NewProgressWriter(stringWriter{u})
-		} else {
+		default:
 			pw = ioutil.NewProgressWriter(plainWriter{u})
 		}
+		wb.Emit(ev{E: "size", N: pw.Size()}) // nothing written yet
 		consumer := []string{"absent", "fast", "slow", "late"}[run%4]
 		if tight {
 			consumer = "fast"
@@ -162,6 +220,19 @@ func main() {
 		done := make(chan struct{})
 		go func() { // writer
 			defer close(done)
+			if viaCopy {
+				for i := 0; i < 1+nw/8; i++ {
+					src := struct{ io.Reader }{bytes.NewReader(bigBuf[:1+rng.Intn(200<<10)])} // no WriteTo: io.Copy has to go through pw
+					io.Copy(pw, src)
+					wb.Emit(ev{E: "size", N: pw.Size()})
+				}
+				writerDone.Store(true)
+				closing.Store(true)
+				wb.Emit(ev{E: "cb"})
+				pw.Close()
+				wb.Emit(ev{E: "ce"})
+				return
+			}
 			for i := 0; i < nw; i++ {
 				if tight {
 					pw.Write(bigBuf[:1+i%7])
